@@ -595,7 +595,7 @@ pub fn run(c: &Case) -> Outcome {
 pub fn property() -> Property {
     Property {
         id: "C07",
-        rule: "one random abstract multigraph (1..=9 nodes quick, <=28 thorough; weights 0..9, -4..9 or 1..3) is stored as Graph<u32>, Graph<u8> relabeled with reversed insertion order, StableGraph with node and edge vacancies (two variants), and - when simple - GraphMap, MatrixGraph with reused ids, Csr (two variants), adj::List (directed); about 30 algorithms and walkers (dijkstra, astar, k_shortest_path, spfa, bellman_ford, find_negative_cycle, floyd_warshall, SCCs, has_path_connecting, is_cyclic_*, connected_components, toposort, Topo, Dfs/Bfs/DfsPostOrder, dominators, articulation points, matchings, ford_fulkerson, MST, maximal_cliques, all_simple_paths, page_rank, is_isomorphic, graph6) run on every encoding that satisfies their bounds; answers are translated back to labels and must be identical where unique and equally valid/optimal otherwise; a panic on one encoding while another succeeds is a violation; non-trivial = >= 3 nodes and >= 2 edges (every case has encodings with node_bound > node_count and edge_bound > edge_count); distinct by case fingerprint",
+        rule: "one random abstract multigraph (1..=9 nodes quick, <=28 thorough; weights 0..9, -4..9 or 1..3) is stored as Graph<u32>, Graph<u8> relabeled with reversed insertion order, StableGraph with node and edge vacancies (two variants), and - when simple - GraphMap, MatrixGraph with reused ids, Csr (two variants), adj::List (directed); about 30 algorithms and walkers (dijkstra, astar, k_shortest_path, spfa, bellman_ford, find_negative_cycle, floyd_warshall, SCCs, has_path_connecting, is_cyclic_*, connected_components, toposort, Topo, Dfs/Bfs/DfsPostOrder, dominators, articulation points, matchings, ford_fulkerson, MST, maximal_cliques, all_simple_paths, page_rank, is_isomorphic, graph6) run on every encoding that satisfies their bounds; answers are translated back to labels and must be identical where unique and equally valid/optimal otherwise (spfa / bellman_ford predecessor tables must be tight shortest-path trees, the astar path must cost what is reported, a label-scripted pruning depth_first_search must give a well-nested event stream and the order-independent reached set, toposort orders are validated); a panic on one encoding while another succeeds is a violation; non-trivial = >= 3 nodes and >= 2 edges (every case has encodings with node_bound > node_count and edge_bound > edge_count); distinct by case fingerprint",
         assumptions: &["correctness of the answers themselves is decided by C08-C16 and C20; this check only compares encodings"],
         both_profiles: false,
         subs: vec![sub("encodings/differential", 240_000, 150_000, strategy, run)],
